@@ -1,0 +1,38 @@
+//go:build verif
+
+package signaling_rpc_server
+
+// VerifSession is a read-only snapshot of one relay session (simulation builds only).
+type VerifSession struct {
+	PeerA, PeerB         string
+	Seqno                uint64
+	AttachedA, AttachedB bool
+}
+
+// VerifPeer is a read-only snapshot of one peer tracker (simulation builds only).
+type VerifPeer struct {
+	Peer        string
+	Listening   bool
+	ListenNonce uint64
+	WantPeers   []string
+}
+
+// VerifState returns a snapshot of the relay state (simulation builds only).
+func (s *Server) VerifState() (peers []VerifPeer, sessions []VerifSession) {
+	s.mtx.Lock()
+	defer s.mtx.Unlock()
+	for k, p := range s.peers {
+		vp := VerifPeer{Peer: k, Listening: p.listening, ListenNonce: p.listenNonce}
+		for w := range p.wantPeers {
+			vp.WantPeers = append(vp.WantPeers, w)
+		}
+		peers = append(peers, vp)
+	}
+	for k, t := range s.sessions {
+		sessions = append(sessions, VerifSession{
+			PeerA: k.peerA, PeerB: k.peerB, Seqno: t.seqno,
+			AttachedA: t.peerA != nil, AttachedB: t.peerB != nil,
+		})
+	}
+	return
+}
